@@ -236,8 +236,8 @@ def selftest():
         # a composite (é) flattens to at least as many contours as its base letter
         if 0xE9 in cm:
             assert len(f.outline(cm[0xE9])) >= len(f.outline(cm[0x65])), p
-    return True
+    return None  # convention of pyref.selftest: an error description, or nothing
 
 
 if __name__ == "__main__":
-    print(selftest())
+    print(selftest() or "OK")
